@@ -31,6 +31,20 @@ text = ["## 11. Seeded changes and which checks catch them", "",
 notes = os.path.join(sd, "NOTES.md")
 if os.path.exists(notes):
     text += [open(notes).read()]
+# rounds 2+: one line per change the first evaluation missed (from meta.json)
+later = ["", "### 11.2 Rounds 2 and later: what each miss led to", "",
+         "`closed by` names the widening of the workload or of the observation (never a loosened oracle); `left open` gives the",
+         "reason the change is outside the property as stated.", ""]
+for name in sorted(os.listdir(sd)):
+    mp = os.path.join(sd, name, "meta.json")
+    if not os.path.exists(mp) or re.fullmatch(r"C\d\d-[AB]", name):
+        continue
+    m = json.load(open(mp))
+    if m.get("not_caught_because"):
+        later.append(f"* **{name}** — left open: {' '.join(m['not_caught_because'].split())}")
+    elif m.get("missed_by_first_version_of_check"):
+        later.append(f"* **{name}** — closed by: {' '.join(str(m.get('strengthening')).split())}")
+text += later + [""]
 design = open(os.path.join(VERIF, "DESIGN.md")).read()
 design = re.sub(r"\n## 11\. Seeded changes.*", "", design, flags=re.S).rstrip("\n") + "\n\n\n" + "\n".join(text)
 open(os.path.join(VERIF, "DESIGN.md"), "w").write(design)
